@@ -98,6 +98,10 @@ class HeapMixin:
             seen.add(cur.qual)
             spec = self.reg.classes.get(cur.qual)
             if spec is not None:
+                pref = f"_{cur.name.lstrip('_')}__"
+                if attr.startswith(pref) and ("__" + attr[len(pref):]) in spec.fields:
+                    # sidecars write private fields the way the source does (self.__x); the heap key is the mangled name
+                    return cur.name, self.parse_type(spec.fields["__" + attr[len(pref):]])
                 if attr in spec.fields:
                     return cur.name, self.parse_type(spec.fields[attr])
                 if attr in spec.ghost_fields:
